@@ -15,6 +15,14 @@ CLAIMED = {
          'native back-end; std models'),
  'C05': ('5/C05', 'nogood search executed symbolically for Simple, both counting heuristics, Rand (every draw a fresh solver variable) and a Custom model heuristic (every admissible choice explored); delivered multiset compared with the definition, sender drop checked in the channel model, fuel exhaustion = non-termination candidate confirmed natively.',
          'roaring bitmaps as 32-bit vectors, crossbeam channel as FIFO model, StdRng over-approximated; bounded families (Rand/Custom: all 2-statement ADFs + seeded 3-statement ADFs)'),
+ 'C12': ('5/C12', 'the C13/C06/C07 harnesses and the semantics at n=2 are executed against MIR dumped under each cargo feature set and compared with the oracle (hence with each other and the default build); quick: default + 3 seed-drawn sets, thorough: all 12.',
+         'std models; native replay binary is rebuilt per feature set for validation and replay'),
+ 'C13': ('5/C13', 'every diagram query executed symbolically on diagrams from symbolic truth tables; z3 decides path counts, model-count ratio and 2^depth normalisation, depth, support, both impact measures, disjointness and exact cover of the path cubes; ModelCounts kernels at full 64-bit width.',
+         'std models; default feature set; constant diagrams excluded for path cubes'),
+ 'C18': ('5/C18', 'all of nogoods.rs executed symbolically: sequences of symbolic nogoods (bit-vector pairs) under every duplicate-elimination mode, a symbolic partial interpretation; z3 decides against the 2^V total assignments that the store excludes exactly what was added, conclusions are forced, conflicts are neither spurious nor missed; conclusion_closure (crate-private) likewise.',
+         'roaring bitmap as 32-bit vector; V<=3-4, K<=2-3'),
+ 'C20': ('5/C20', 'both iterators executed symbolically on vectors of unconstrained 64-bit handles (one path per decided/undecided pattern, all values at once): item count 2^k / 3^k, pairwise distinct, decided positions untouched, first item = input (three-valued), None forever afterwards.',
+         'std models; vector length <= 6 (quick) / 8 (thorough)'),
  'C06': ('5/C06', 'scripts of diagram operations executed symbolically on one store; after every step z3 decides the structural invariants (reduced, ordered, duplicate-free, unique table <-> node table) and handle-equality <=> function-equality for all issued handles.',
          'std HashMap/HashSet/Vec under models; all functions of 2 variables, seeded 3/4-variable families, histories of length 2-3 incl. node-list re-import'),
  'C07': ('5/C07', 'same symbolic runs as C06; per step z3 decides for every assignment that the result table equals the connective / cofactor of the operand tables and that the node-table prefix is unchanged.',
